@@ -5,8 +5,8 @@
        is_connectable, connect (horizontal composition with the genus update)
      Cob = sorted Vec<CobComp>: new, id, connect / connect_comp / connected (`_connect_comp` absorbs every
        connectable component), euler_num, deg, nbdr_comps, is_invertible, inv
-   on top of Model/Tng.v.  Definitions only (proofs: Proofs/TngPCob*.v).  NOT modelled: Cob::stack (vertical
-   composition), cap_off, part_eval / eval (the latter: Model/CobEval.v).
+   on top of Model/Tng.v.  Definitions only (proofs: Proofs/TngPCob*.v).  Cob::stack (vertical composition), cap_off,
+   part_eval and LcCob: Model/TngStack.v; eval of closed cobordisms: Model/CobEval.v.
 
    Conventions
    * release build: `debug_assert!` does not fire (CobComp::new does not compare the end points of src and tgt,
